@@ -37,7 +37,7 @@ class NullCtx(object):
 class Monitor(object):
     def __init__(self, ctx):
         self.ctx = ctx
-        self.mono = Mono(self.on_break)
+        self.mono = Mono(self.on_break, repeats='compare')
         self.moved = 0
         self.c11 = c11.Monitor(NullCtx())
         self.c11.ctx.nt = lambda *a, **k: False
@@ -78,11 +78,11 @@ class Monitor(object):
         # count pairs whose score moved (non-trivial adjacency)
         if m is not None and x not in m:
             i = m.bisect_left(x)
-            if i > 0 and m.peekitem(i - 1)[1] != points:
+            if i > 0 and m.peekitem(i - 1)[1][1] != points:
                 self.moved += 1
-                ctx.sample('adjacent-pair-%s' % system, {'key': key, 'worse_mark': float(abs(m.peekitem(i - 1)[0])), 'worse_points': m.peekitem(i - 1)[1],
+                ctx.sample('adjacent-pair-%s' % system, {'key': key, 'worse_mark': float(abs(m.peekitem(i - 1)[0])), 'worse_points': m.peekitem(i - 1)[1][1],
                                                         'better_mark': float(abs(x)), 'better_points': points}, 2)
-            if i < len(m) and m.peekitem(i)[1] != points:
+            if i < len(m) and m.peekitem(i)[1][0] != points:
                 self.moved += 1
         self.mono.add((system, key), x, points)
 
